@@ -7,10 +7,13 @@
    with every comparator and operand kind, functions), unbounded depth and size: a call returns
    exactly the specification's results — values, multiplicity, order, accessor wrapping — and fails
    exactly when the specification selects nothing.
-   PARTIAL in one respect: the link "path text -> tree" (parse (render ast) = build ast) is not proved;
-   trees come from the parser model, which is compared with the real parser node by node (tree dumps)
-   and through the public API on every generated case. *)
-From JP Require Import Eval WF Verdict Spec EvalInv1 EvalInv3 EvalInv4 EvalTop Refine1 Refine2 RefineTop.
+   C01_end_to_end: the same from the path TEXT — whatever string is parsed, the tree Parse returns is
+   well formed (C02_parsed_trees_well_formed), so retrieval on it returns exactly the specification's
+   results, or exactly when these are empty the specification's error; no hypothesis on the tree remains.
+   Not a theorem: that a given text denotes a given AST (parse (render ast) = build ast); the parser
+   model is compared with the real parser node by node (tree dumps) and through the public API on every
+   generated case. *)
+From JP Require Import Peg Grammar Text Tree Actions Eval WF Verdict Spec ErrSpec EvalInv1 EvalInv3 EvalInv4 EvalTop Refine1 Refine2 RefineTop EndToEnd.
 
 Section C01.
   Variable ffun : string -> value -> option value.
@@ -52,3 +55,20 @@ End C01.
 Print Assumptions C01_refines_spec.
 Print Assumptions C01_every_step.
 Print Assumptions C01_filter_semantics.
+
+Theorem C01_end_to_end : forall cfg parse_float regex_ok ffun afun regex_match,
+  (forall f v w, small v -> ffun f v = Some w -> small w) ->
+  (forall f l w, Forall small l -> afun f l = Some w -> small w) ->
+  forall input doc st, small doc -> ok st ->
+  match parse_with cfg parse_float regex_ok jsonpath_grammar input with
+  | ParseCrash _ => False
+  | ParseErr _ => True
+  | ParseOk t =>
+      match fst (eval_run ffun afun regex_match t doc st) with
+      | OOk rs => rs = spec_results ffun afun regex_match t doc /\ rs <> nil /\ spec_error ffun afun regex_match t doc = None
+      | OErr e => spec_results ffun afun regex_match t doc = nil /\ spec_error ffun afun regex_match t doc = Some e
+      | OPanic _ => False
+      end
+  end.
+Proof. exact retrieve_end_to_end. Qed.
+Print Assumptions C01_end_to_end.
